@@ -187,6 +187,8 @@ AgentOK(st) == InGrid(st.grid, st.pos) /\ ~BlocksMovement(Cell(st.grid, st.pos))
 SameOrObstacle(F, expected, actual) ==
   \/ actual = expected
   \/ (IsFloor(expected) /\ actual.t = "MovingObstacle" /\ F.obst)
+  \* an obstacle released from a box (or dropped) takes its turn in the same step and may have left the cell
+  \/ (expected.t = "MovingObstacle" /\ IsFloor(actual) /\ F.obst)
 Counted(o) == o.t \notin {"Floor", "NoneGridObject"}
 \* the bag of counted objects of a state, as a function kind -> count
 CountedCells(st) == {p \in GPositions(st.grid) : Counted(Cell(st.grid, p))}
